@@ -81,3 +81,16 @@ instance (x : Ext) : (op : Op) → Decidable (admissible x op)
   | .block .. => isTrue trivial
 
 end FxVerif.Model.C05
+
+namespace FxVerif.Model.C05
+
+def isObserve : Op → Bool
+  | .observe _ _ => true
+  | _ => false
+
+/-- at every observation no bridge-call result is pending: results are applied before the next event is observed -/
+def PromptRun : State → List Op → Prop
+  | _, [] => True
+  | s, op :: ops => (isObserve op = true → s.pending = []) ∧ PromptRun (step s op).1 ops
+
+end FxVerif.Model.C05
